@@ -509,6 +509,11 @@ ChkEnd(h, e) ==
    \cup If(h.urgent, {V("C03_c", r, Sig(h.rq[r]), <<"cut off at", h.rq[r].endT, "with no drain deadline to explain it", h.rq[r].how>>) : r \in unexplained})
    \cup If(h.urgent, {V("C03_c", r, Sig(h.rq[r]), <<"upgraded connection not closed when draining began">>) : r \in survivors})
    \cup If(h.urgent, {V("C09_a", u, "", <<"live target no longer probed; last probe", h.tg[u].probeT>>) : u \in live})
+   \* C06: ... and if a command on that service failed after the group was deployed, the failure changed something
+   \cup If(h.urgent, {V("C06_c", u, "", <<"live target no longer probed after a failed command; last probe", h.tg[u].probeT>>) :
+                        u \in {v \in live : \E k \in DOMAIN h.cmd :
+                                   /\ h.cmd[k].svc = h.cmd[h.tg[v].grp].svc /\ h.cmd[k].ret # 0
+                                   /\ h.cmd[k].res \notin {"ok", ""} /\ h.cmd[k].ret > h.cmd[h.tg[v].grp].ret}})
 
 (***************************************************************************)
 (* C12: the state file.  file_obs = what a proxy started at this instant   *)
